@@ -269,6 +269,8 @@ func Supervise(o SupOpts) int {
 		out, code := runReplayProcess(o.Exe, v.Replay, info.MemLimitMB)
 		if code == 1 {
 			confirmed = append(confirmed, v)
+		} else if v2, ok := crossRunSearch(o, info, v, code); ok {
+			confirmed = append(confirmed, v2)
 		} else {
 			trouble = append(trouble, fmt.Sprintf("violation %s (run %d) did not reproduce when %s was replayed in a fresh process (exit %d): not reported as a violation\n%s", v.Fingerprint, v.Run, v.Replay, code, tail(out, 800)))
 		}
@@ -580,3 +582,148 @@ func tail(s string, n int) string {
 }
 
 func round3(f float64) float64 { return float64(int64(f*1000)) / 1000 }
+
+// crossRunSearch handles a violation that its worker reproduced from the tape
+// but a fresh process does not: the remaining explanation inside the code
+// under test is state that survives between runs (a package-level variable,
+// a shared default object). The runs that worker executed before the failing
+// one are re-executed in fresh child processes followed by the minimised tape;
+// if that reproduces the violation the list of earlier runs is minimised
+// (ddmin, one fresh process per test) and a replay file with their tapes
+// embedded is written and replayed once more. Anything else stays trouble.
+func crossRunSearch(o SupOpts, info core.Info, v ViolReport, code int) (ViolReport, bool) {
+	if code != 0 || o.Workers <= 0 {
+		return v, false
+	}
+	W := uint64(o.Workers)
+	var runs []uint64
+	// (the failing run itself is a candidate too: its unminimised tape may have
+	// planted the state under which the minimised one, shrunk in the same
+	// process, still fails)
+	for r := v.Run % W; r <= v.Run; r += W {
+		runs = append(runs, r)
+	}
+	if len(runs) == 0 {
+		return v, false
+	}
+	tests := 0
+	deadline := time.Now().Add(6 * time.Minute)
+	test := func(list []uint64, write string) bool {
+		tests++
+		fs := make([]string, len(list))
+		for i, r := range list {
+			fs[i] = strconv.FormatUint(r, 10)
+		}
+		args := []string{"exec-seq", "-prop", o.Prop, "-base", fmt.Sprint(o.Base), "-runs", strings.Join(fs, ",")}
+		if write != "" {
+			args = append(args, "-write", write)
+		}
+		args = append(args, v.Replay)
+		_, err := runWithTimeout(workerCmd(o.Exe, args, info.MemLimitMB), 150*time.Second)
+		if ee, ok := err.(*exec.ExitError); ok {
+			return ee.ExitCode() == 1
+		}
+		return false
+	}
+	if !test(runs, "") {
+		return freshShrink(o, info, v)
+	}
+	n := 2
+	for len(runs) >= 2 && tests < 150 && time.Now().Before(deadline) {
+		chunk := (len(runs) + n - 1) / n
+		reduced := false
+		for i := 0; i*chunk < len(runs) && !reduced; i++ {
+			hi := (i + 1) * chunk
+			if hi > len(runs) {
+				hi = len(runs)
+			}
+			if sub := runs[i*chunk : hi]; len(sub) < len(runs) && test(sub, "") {
+				runs, n, reduced = append([]uint64{}, sub...), 2, true
+			}
+		}
+		for i := 0; n > 2 && i*chunk < len(runs) && !reduced; i++ {
+			hi := (i + 1) * chunk
+			if hi > len(runs) {
+				hi = len(runs)
+			}
+			comp := append(append([]uint64{}, runs[:i*chunk]...), runs[hi:]...)
+			if len(comp) > 0 && test(comp, "") {
+				runs, reduced = comp, true
+				if n > 2 {
+					n--
+				}
+			}
+		}
+		if !reduced {
+			if n >= len(runs) {
+				break
+			}
+			n *= 2
+			if n > len(runs) {
+				n = len(runs)
+			}
+		}
+	}
+	path := strings.TrimSuffix(v.Replay, ".json") + "-with-earlier-runs.json"
+	if !test(runs, path) {
+		return v, false
+	}
+	if _, c := runReplayProcess(o.Exe, path, info.MemLimitMB); c != 1 {
+		return v, false
+	}
+	v.Replay = path
+	v.Msg = fmt.Sprintf("%s [reproduces only after %d earlier run(s) %v in the same process: state of the code under test survives between runs; %d fresh-process tests]", v.Msg, len(runs), runs, tests)
+	return v, true
+}
+
+// freshShrink: the last explanation — the run fails on its own, but a
+// minimisation candidate executed in the worker process changed surviving
+// state, after which everything "failed" and the minimiser returned a tape
+// that does not fail alone. The run's own tape is re-executed in a fresh
+// process and, if it shows the violation there, minimised with one fresh
+// process per candidate.
+func freshShrink(o SupOpts, info core.Info, v ViolReport) (ViolReport, bool) {
+	path := strings.TrimSuffix(v.Replay, ".json") + "-fresh.json"
+	args := []string{"exec-seq", "-prop", o.Prop, "-base", fmt.Sprint(o.Base), "-self", "-write", path, v.Replay}
+	_, err := runWithTimeout(workerCmd(o.Exe, args, info.MemLimitMB), 150*time.Second)
+	if ee, ok := err.(*exec.ExitError); !ok || ee.ExitCode() != 1 {
+		return v, false
+	}
+	rf, rerr := ReadReplay(path)
+	if rerr != nil {
+		return v, false
+	}
+	tf := path + ".cand"
+	defer os.Remove(tf)
+	fails := func(c []uint64) (bool, int) {
+		b, _ := json.Marshal(c)
+		os.WriteFile(tf, b, 0o644)
+		cmd := workerCmd(o.Exe, []string{"exec-tape", "-prop", o.Prop, "-fp", v.Fingerprint, tf}, info.MemLimitMB)
+		outb, err := runWithTimeout(cmd, 60*time.Second)
+		used := len(c)
+		if i := strings.LastIndex(string(outb), "USED "); i >= 0 {
+			fmt.Sscanf(string(outb)[i:], "USED %d", &used)
+		}
+		if ee, ok := err.(*exec.ExitError); ok && ee.ExitCode() == 1 {
+			return true, used
+		}
+		return false, used
+	}
+	orig := rf.Tape
+	if f, _ := fails(orig); f {
+		min, st := shrink.Minimise(orig, fails, 1500, 120*time.Second)
+		if f2, _ := fails(min); f2 {
+			rf.Tape, rf.Original = min, len(orig)
+			rf.Shrink = map[string]int{"executions": st.Execs, "from": len(orig), "to": len(min), "ms": int(st.Elapsed.Milliseconds())}
+			if _, werr := WriteReplay(filepath.Dir(path), rf, filepath.Base(path)); werr != nil {
+				return v, false
+			}
+		}
+	}
+	if _, c := runReplayProcess(o.Exe, path, info.MemLimitMB); c != 1 {
+		return v, false
+	}
+	v.Replay, v.TapeFrom, v.TapeTo, v.ShrinkExecs = path, len(orig), len(rf.Tape), rf.Shrink["executions"]
+	v.Msg += " [minimised in fresh child processes: candidates executed inside the worker changed state of the code under test that survives between runs]"
+	return v, true
+}
